@@ -356,6 +356,34 @@ def suite_float(ctx):
                         {'mapping': mapping, 'property': name,
                          'opts': repr(opts)})
             ctx.count(key=('to_grid', mapping, repr(opts)))
+    # grids with the same cell widths, shifted by a fraction of a cell / a few
+    # cells, near the origin and at UTM-like coordinates: not equal grids, so
+    # the model is volume averaged (not returned as it is)
+    for t, org in enumerate([(0., 0., 0.), (500000., 6500000., -1000.),
+                             (-3.2e6, 7.5e6, 2.0e5)]):
+        hw = [np.ones(6)*100., np.ones(5)*100., np.ones(4)*50.]
+        gi = emg3d.TensorMesh(hw, org)
+        for shift in [(3., 40., 0.), (0., -130., 10.), (0.5, 0., 0.)]:
+            go = emg3d.TensorMesh(hw, tuple(a+b for a, b in zip(org, shift)))
+            px = 10.0**rng.uniform(-1, 1, gi.shape_cells)
+            model = emg3d.Model(gi, property_x=px)
+            with warnings.catch_warnings():
+                warnings.simplefilter('ignore')
+                new = model.interpolate_to_grid(go)
+                ref = maps.interpolate(gi, px, go, method='volume', log=True)
+            same = gi == go
+            got = new.property_x
+            if same or not np.allclose(got, ref, rtol=1e-10, atol=0) or \
+                    not (new.grid == go):
+                ctx.violation(
+                    'interpolate_to_grid-differs',
+                    f'Model.interpolate_to_grid to a grid with the same '
+                    f'widths shifted by {shift} m (origin {org}): grids '
+                    f'compare equal: {bool(same)}; result differs from the '
+                    f'volume average by '
+                    f'{np.max(np.abs(got/ref-1)):.3g} (relative)',
+                    {'origin': list(org), 'shift': list(shift)})
+            ctx.count(key=('to_grid-shift', t, shift))
     ctx.oblige('correspondence: maps.interpolate(volume) == closed form '
                '(64 eps); monitors: log symmetry, range, identity, adjoint '
                'pairing, Model.interpolate_to_grid', 'correspondence',
